@@ -96,7 +96,7 @@ REPLAY_PLANS = {
                          cov("U2", "U2_ScriptsQ", "F_Op", 120),
                          cov("U4", "U4_MZI", "F_Measure", 160, init="U4_MZIInit", over=MZI_OVER)],
                "thorough": [cov("U4", "U4_Scripts", "F_Op", 3000), cov("U2", "U2_Scripts", "F_Op", 2000),
-                            cov("U4", "U4_MZI", "F_Measure", 4000, init="U4_MZIInit", over=MZI_OVER), cov("U4", "U4_ScriptsBS", "F_Op", 2500, depth=2, over={"PolGates": "None", "CompGates": "BS_Gates", "FockGates": "PS_Gates", "CustomOps2": "None", "CustomOps3": "None"})]},
+                            cov("U4", "U4_MZI", "F_Measure", 4000, init="U4_MZIInit", over=MZI_OVER), cov("U4", "U4_ScriptsBS", "F_Op", 2500, over={"PolGates": "None", "CompGates": "BS_Gates", "FockGates": "PS_Gates", "CustomOps2": "None", "CustomOps3": "None"})]},
         actions={"opn", "op1", "measure"},
         exhaustive={"quick": [("U4", 3, "Fam_C11")], "thorough": [("U4", 4, "Fam_C11")]},
         ex_init={"U4": "U4_ExInit"},
@@ -131,7 +131,7 @@ REPLAY_PLANS["C15"] = dict(
     cover={"quick": [cov("U1", "U1_ScriptsQ", "F_Op", 200), cov("U2", "U2_ScriptsQ", "F_Op", 160),
                      cov("U4", "U4_ScriptsOps", "F_Op", 200, init="U4_OpsInit")],
            "thorough": [cov("U1", "U1_Scripts", "F_Op", 2000), cov("U2", "U2_Scripts", "F_Op", 2000),
-                        cov("U4", "U4_ScriptsOps", "F_Op", 1500, init="U4_OpsInit", depth=2), cov("U3", "U3_Scripts", "F_Op", 1000)]},
+                        cov("U4", "U4_ScriptsOps", "F_Op", 1500, ops="R", init="U4_OpsInit"), cov("U3", "U3_Scripts", "F_Op", 1000)]},
     actions={"op1", "opn", "opk"},
     env={"VERIF_REUSE_OPS": "1"}, claims_actions=True,
     exhaustive={"quick": [("U1", 3, "Fam_C01")], "thorough": [("U1", 4, "Fam_C01")]},
@@ -153,7 +153,7 @@ TRACE_PLANS = {
     "C13": dict(
         layout={"quick": (2, 1, 2, 3), "thorough": (2, 1, 3, 4)},
         layout_faults={"quick": ["stale_handles", "refresh_before_remove"], "thorough": ["no_refresh_on_merge", "dup_on_merge", "refresh_before_remove", "stale_handles"]},
-        cover={"quick": [cov("U2", "U2_ScriptsReg", "F_Reg", 520)], "thorough": [cov("U2", "U2_ScriptsReg", "F_Reg", 3000, depth=2)]},
+        cover={"quick": [cov("U2", "U2_ScriptsReg", "F_Reg", 520)], "thorough": [cov("U2", "U2_ScriptsReg", "F_Reg", 4000), cov("U2", "U2_ScriptsReg", "F_Reg", 1500, init="U2_Same")]},
         exhaustive={"quick": [("U4", 3, "Fam_All")], "thorough": [("U4", 4, "Fam_All")]},
         simulate={"quick": [sim("U2", 32, 11, "Fam_All", "NextSim_Struct"), sim("U3", 32, 11, "Fam_All", "NextSim_Struct")],
                   "thorough": [sim("U2", 400, 13, "Fam_All", "NextSim_Struct"), sim("U3", 400, 13, "Fam_All", "NextSim_Struct"),
@@ -162,7 +162,7 @@ TRACE_PLANS = {
     "C20": dict(
         layout={"quick": (2, 1, 2, 3), "thorough": (2, 1, 3, 4)},
         layout_faults={"quick": ["stale_handles", "refresh_before_remove"], "thorough": ["no_refresh_on_merge", "dup_on_merge", "refresh_before_remove", "stale_handles"]},
-        cover={"quick": [cov("U2", "U2_ScriptsReg", "F_Reg", 520)], "thorough": [cov("U2", "U2_ScriptsReg", "F_Reg", 3000, depth=2)]},
+        cover={"quick": [cov("U2", "U2_ScriptsReg", "F_Reg", 520)], "thorough": [cov("U2", "U2_ScriptsReg", "F_Reg", 4000), cov("U2", "U2_ScriptsReg", "F_Reg", 1500, init="U2_Same")]},
         exhaustive={"quick": [("U4", 3, "Fam_All")], "thorough": [("U4", 4, "Fam_All")]},
         simulate={"quick": [sim("U2", 32, 11, "Fam_All", "NextSim_Comp"), sim("U3", 32, 11, "Fam_All", "NextSim_Comp")],
                   "thorough": [sim("U2", 400, 13, "Fam_All", "NextSim_Comp"), sim("U3", 400, 13, "Fam_All", "NextSim_Comp"),
